@@ -72,12 +72,12 @@ def graph_checks(w, bad):
     return held, items
 
 
-def run_history(rootname, hist):
-    w = World(rootname)
+def run_history(rootname, hist, warm=False):
+    w = World(rootname, warm=warm)
     obs = [w.apply(op) for op in hist]
     canon = canon_world(w)
     viols = []
-    case = {"root": rootname, "history": hist}
+    case = {"root": rootname, "history": hist, "warm": warm}
 
     def bad(clause, observed, expected):
         viols.append({"clause": clause, "case": case, "observed": observed, "expected": expected})
@@ -186,7 +186,9 @@ def work_items(tier, seed):
     items = []
     for name, r in ROOTS.items():
         for op in r["evals"] + r["edits"]:
-            items.append({"root": name, "first": op})
+            items.append({"root": name, "first": op, "warm": False})
+        for op in r["edits"]:
+            items.append({"root": name, "first": op, "warm": True})
     return items
 
 
@@ -194,31 +196,38 @@ def run_item(item, tier):
     name = item["root"]
     stats = {"ref_defined": 0, "ref_undefined": 0, "preds_checked": 0}
 
+    warm = item.get("warm", False)
+
     def rh(h):
-        c, v, d, info = run_history(name, h)
+        c, v, d, info = run_history(name, h, warm)
         stats["ref_defined" if info["ref"] else "ref_undefined"] += 1
         stats["preds_checked"] += info.get("npreds", 0)
         return c, v, d, info
-    res = bfs.explore(rh, enabled_for(name), DEPTH[tier], prefix=[item["first"]])
-    res.samples = [{"root": name, "history": h} for h in res.samples]
+    res = bfs.explore(rh, enabled_for(name), (DEPTH[tier] - 1) if warm else DEPTH[tier], prefix=[item["first"]])
+    res.samples = [{"root": name, "history": h, "warm": warm} for h in res.samples]
     out = res.as_item_result()
     out["counts"].update(stats)
     return out
 
 
 def check_case(case):
-    return run_history(case["root"], case["history"])[1]
+    return run_history(case["root"], case["history"], case.get("warm", False))[1]
 
 
 def shrink_candidates(case):
     h = case["history"]
     for i in range(len(h)):
-        yield {"root": case["root"], "history": h[:i] + h[i + 1:]}
+        yield dict(case, history=h[:i] + h[i + 1:])
+    if case.get("warm"):
+        yield dict(case, warm=False)
 
 
 def script(case):
     r = ROOTS[case["root"]]
-    return O.history_script(r["spec"], case["history"]) + \
+    pre = O.spec_to_python(r["spec"])
+    if case.get("warm"):
+        pre += "\n" + "\n".join(O.op_to_python(p) for p in r["probes"])
+    return pre + "\n" + "\n".join(O.op_to_python(o) for o in case["history"]) + \
         "\nprint(list(m.tracegraph.nodes)); print(list(m.tracegraph.edges))"
 
 
